@@ -455,6 +455,14 @@ def o_text(case):
         _bad("text:token-count", "disassemble gives %d tokens for %d instructions: %r" % (len(toks), len(case["elements"]), text[:200]))
     if ST.disassemble(script) != text or ST.opcode_list(script) != toks:
         _bad("text:network-script-differs", "network.script and BitcoinScriptTools disagree on %s" % script.hex()[:80])
+    # the caller owns what it is given: editing a returned token list (to build a longer script text, say) must not
+    # change what the next disassembly of the same bytes says
+    mine = net.script.opcode_list(script)
+    mine.append("OP_CHECKSIG")
+    mine.reverse()
+    if net.script.opcode_list(script) != toks or net.script.disassemble(script) != text:
+        _bad("text:disassembly-depends-on-edits-to-an-earlier-result", "after a caller edited the list opcode_list(%s..) had returned, the "
+             "next disassembly of the same bytes is %r" % (script.hex()[:80], net.script.disassemble(script)[:200]))
     labels = set()
     for el, b in zip(case["elements"], parts):
         labels.add("el=op" if el[0] == "op" else "el=push:" + ("OP_0" if b[0] == 0 else "OP_n/1NEGATE" if b[0] >= 0x4f else "direct" if b[0] <= 75
